@@ -212,7 +212,8 @@ int yr_parser_emit_pushes_for_strings(
       if ((*target_identifier == '\0' && *string_identifier == '\0') ||
           *target_identifier == '*')
       {
-        yr_parser_emit_with_arg_reloc(yyscanner, OP_PUSH, string, NULL, NULL);
+        FAIL_ON_ERROR(yr_parser_emit_with_arg_reloc(
+            yyscanner, OP_PUSH, string, NULL, NULL));
 
         string->flags |= STRING_FLAGS_REFERENCED;
         string->flags &= ~STRING_FLAGS_FIXED_OFFSET;
